@@ -8,13 +8,16 @@ Mirrored Go code (tree after the `fix:` commit recorded in notes/C14.md):
   a stored row is `(scheme, password it was computed from)`, see below);
 * `internal/auth/sasl.go`: `SASLAuth.usernameForAuth`, `SASLAuth.AuthPlain` (one provider),
   the PLAIN and LOGIN closures of `CreateSASL` (`usernameForAuth`, `saslAuthPlain`, `plain`, `login`);
+* `internal/auth/sasllogin/sasllogin.go`: `loginServer.Next` (`LoginSrv.next`, `loginExchange`, `loginVia`): the
+  responses are handed to the closure unchanged;
 * `internal/authz/normalization.go`: `NormalizeAuto`, the table `NormalizeFuncs` (`normalizeAuto`, `normalizeFunc`,
   `Cfg.ofConfig`) over the library primitives `NormPrims`;
 * overlapping logins: `Auth.AuthPlain` is two steps — the row is read (`table.Lookup`), later the hash
   verification of the row that was read returns (`Ev.fetch` / `Ev.finish`, `evStep`);
 * `internal/endpoint/smtp/session.go`: `Session.Auth` (success callback), `Session.Mail` (gate) together with
   the command sequencing of go-smtp's `Conn` (`handleGreet/handleAuth/handleMail/handleRcpt/handleData/reset`)
-  (`connStep`).
+  (`connStep`); `Endpoint.NewSession`: the early checks are run by the greeting that creates the session, a failure
+  means no session (`Cmd.ehlo v`).
 
 External behaviour is a parameter:
 * `Cfg.norm`  = `precis.UsernameCaseMapped.CompareKey` (`none` = error),
@@ -138,6 +141,54 @@ def plain (c : Cfg) (t : Tbl) (authzid u : Name) (p : Pw) : AuthRes :=
 def login (c : Cfg) (t : Tbl) (u : Name) (p : Pw) : AuthRes :=
   if !c.loginEnabled then .unsupported
   else if saslAuthPlain c t u p then .ok u else .fail
+
+/-! ### the LOGIN server (`internal/auth/sasllogin/sasllogin.go`): what the LOGIN closure is called with
+
+`loginServer.Next` keeps the first response as the user name and hands it, with the second response as the password,
+to the authenticator — the byte slices are converted with `string(response)` and nothing else is done to them.
+`none` is Go's nil response (an exchange that starts without an initial response). -/
+
+inductive LoginState | notStarted | waitingUsername | waitingPassword | finished
+deriving DecidableEq, Repr
+
+structure LoginSrv where
+  state : LoginState := .notStarted
+  username : Name := []
+deriving DecidableEq, Repr
+
+inductive LoginStep
+  | challenge                          -- "Username:" / "Password:", done = false
+  | authenticate (u : Name) (p : Pw)   -- done = true: the authenticator is called with exactly these
+  | unexpected                         -- sasl.ErrUnexpectedClientResponse
+deriving DecidableEq, Repr
+
+def LoginSrv.next (a : LoginSrv) (resp : Option (List Nat)) : LoginSrv × LoginStep :=
+  match a.state, resp with
+  | .notStarted, none => ({ a with state := .waitingUsername }, .challenge)
+  | .notStarted, some r => ({ state := .waitingPassword, username := r }, .challenge)   -- `fallthrough`
+  | .waitingUsername, r => ({ state := .waitingPassword, username := r.getD [] }, .challenge)
+  | .waitingPassword, r => ({ a with state := .finished }, .authenticate a.username (r.getD []))
+  | .finished, _ => (a, .unexpected)
+
+/-- the exchange as the SMTP/IMAP server drives it (`Next` per response until done or error): the credentials the
+authenticator is called with, if it is called -/
+def loginExchangeFrom (a : LoginSrv) : List (Option (List Nat)) → Option (Name × Pw)
+  | [] => none
+  | r :: rest =>
+    match a.next r with
+    | (_, .authenticate u p) => some (u, p)
+    | (a', .challenge) => loginExchangeFrom a' rest
+    | (_, .unexpected) => none
+
+def loginExchange : List (Option (List Nat)) → Option (Name × Pw) := loginExchangeFrom {}
+
+/-- LOGIN through the server: `CreateSASL(sasl.Login, …)` and the client's responses `u`, `p` with (`ir`) or without
+an initial response. -/
+def loginVia (c : Cfg) (t : Tbl) (ir : Bool) (u : Name) (p : Pw) : AuthRes :=
+  if !c.loginEnabled then .unsupported      -- FailingSASLServ
+  else match loginExchange (if ir then [some u, some p] else [none, some u, some p]) with
+    | some (u', p') => if saslAuthPlain c t u' p' then .ok u' else .fail
+    | none => .fail
 
 /-! ### histories -/
 
@@ -503,15 +554,27 @@ structure Conn where
   rcpts : Nat := 0              -- len(c.recipients)
 deriving DecidableEq, Repr
 
+/-- What the pipeline's early (connection-level) checks answer if they are run (`MsgPipeline.RunEarlyChecks`), as the
+reply code `Endpoint.wrapErr` derives from the error: `none` = they pass. -/
+abbrev EarlyVerdict := Option Nat
+
 inductive Cmd
-  | ehlo | noop | rset | mail | rcpt | data
+  | ehlo (v : EarlyVerdict)   -- EHLO/HELO; `v`: what the early checks answer IF this greeting makes `NewSession` run them
+  | noop | rset | mail | rcpt | data
   | auth (r : AuthRes)   -- AUTH whose SASL exchange, if reached, ends with `r` (decided by the credential model)
 deriving DecidableEq, Repr
 
 /-- One SMTP command against an endpoint with `authAlwaysRequired = required`; reply code
 (final reply for DATA, whose body is always well-formed and accepted by the pipeline). -/
 def connStep (required : Bool) (s : Conn) : Cmd → Conn × Nat
-  | .ehlo => ({ s with helo := true }, 250)     -- handleGreet: NewSession hands back the session the connection already has (fix e064dc2)
+  | .ehlo v =>
+    -- handleGreet: NewSession hands back the session the connection already has (fix e064dc2) — the early checks are run only
+    -- for the greeting that creates the session; when they fail there is no session, `c.helo` is cleared again and the
+    -- reply is the error as wrapped by `wrapErr`. (`helo` = "the connection has its Session".)
+    if s.helo then (s, 250)
+    else match v with
+      | none => ({ s with helo := true }, 250)
+      | some code => (s, code)
   | .noop => (s, 250)
   | .rset => ({ s with fromReceived := false, rcpts := 0 }, 250)
   | .auth r =>
